@@ -167,50 +167,59 @@ theorem initializer_names_full_refuted_shared :
 
 /-! ## Part A — names generated by `GraphBuilder` -/
 
-/-- **Names are unique (partial).**  In a trace without subgraphs (and without `call_inline`, whose names
-belong to a different family: `prefix + body name`), every automatically generated value name is made from a
-*different* (scope, op, node-count, output-index) tuple: `_adapt_outputs` reads `graph.num_nodes()`, every
-call appends exactly one node, so the count strictly increases along the trace — for every trace length,
-every mix of operator calls, function calls, literals, explicit names and module scopes.  The hypothesis is
-forced: with a subgraph the child builder's graph restarts at 0 (`names_unique_full_refuted`).  The statement
-is about the tuples, not their rendering `v_{scope}.{op}_{count}[_{i}]`: the rendering itself is not
-injective (`names_unique_nosub_refuted_opname`). -/
+/-- **Names are unique** (after commit e9794aa — no `NoSubgraphs` hypothesis any more).  In every trace —
+operator calls, function calls, literals, explicit names, module scopes and **arbitrarily nested
+`subgraph` constructions** — every automatically generated value name is made from a *different*
+(scope, op, node-count, output-index) tuple: `_adapt_outputs` reads `_node_count()` = the nodes of the
+root graph and of all subgraphs of the builder tree, every call appends exactly one node to one of them,
+opening and closing a subgraph only moves graphs between "current / enclosing / finished", so the count
+strictly increases along the trace.
+Still `_partial`: (i) `call_inline` is excluded (`simpleItem`): its names are `prefix + body name`, another
+family, and can collide (`names_unique_noinline_needed`, D20c); (ii) the statement is about the tuples, not
+their rendering `v_{scope}.{op}_{count}[_{i}]`, which is not injective
+(`names_unique_refuted_opname`, D20f). -/
 theorem names_unique_partial (fns : List Fn) (tr : List Item) (h : ∀ it ∈ tr, simpleItem it = true) :
     ((build fns tr).vkeys.filter isAutoKey).Nodup :=
   (Inv.foldl fns tr St.init h Inv.init).2
 
-/-- …and each of those tuples carries a count below the final number of nodes of the root graph. -/
+/-- …and each of those tuples carries a count below the final number of nodes of the whole builder tree. -/
 theorem auto_counts_bounded_partial (fns : List Fn) (tr : List Item) (h : ∀ it ∈ tr, simpleItem it = true) :
-    ∀ k ∈ (build fns tr).vkeys, ∀ p o c i, k = VKey.auto p o c i → c < (build fns tr).cur.nodes.length :=
+    ∀ k ∈ (build fns tr).vkeys, ∀ p o c i, k = VKey.auto p o c i → c < nodeCount true (build fns tr) :=
   (Inv.foldl fns tr St.init h Inv.init).1
 
-/-- D20a witness: main graph, `then` and `else` bodies all define `v_Add_0` / `Add_node_0`. -/
+/-- D20a witness (regression case): main graph, `then` and `else` bodies each call `Add` first. -/
 def d20aTrace : List Item :=
   [.input "x", .input "c", .op "Add" [.ref 0, .ref 0] (.auto 1) none [],
    .beginSub "then" [], .op "Add" [.ref 0, .lit (.num "1.0" 1000 "f32")] (.auto 1) none [], .endSub [3] [""],
    .beginSub "else" [], .op "Add" [.ref 0, .lit (.num "2.0" 2000 "f32")] (.auto 1) none [], .endSub [4] [""],
    .op "If" [.ref 1] (.auto 1) none [0, 1]]
 
-/-- The full statement (subgraphs allowed) is false, for the tuples, the rendered value names and the node
-names alike. -/
-theorem names_unique_full_refuted :
-    ¬ (∀ tr : List Item, ((build [] tr).vkeys.filter isAutoKey).Nodup) ∧
-    ¬ (∀ tr : List Item, (build [] tr).valueNames.Nodup) ∧
-    ¬ (∀ tr : List Item, (build [] tr).nodeNames.Nodup) := by
+/-- **Before the fix** (per-graph counter, `buildPrefix`) the statement was false — for the tuples, the
+rendered value names and the node names alike: all three graphs defined `v_Add_0` / `Add_node_0`. -/
+theorem names_unique_prefix_refuted :
+    ¬ (∀ tr : List Item, ((buildPrefix [] tr).vkeys.filter isAutoKey).Nodup) ∧
+    ¬ (∀ tr : List Item, (buildPrefix [] tr).valueNames.Nodup) ∧
+    ¬ (∀ tr : List Item, (buildPrefix [] tr).nodeNames.Nodup) := by
   refine ⟨fun h => ?_, fun h => ?_, fun h => ?_⟩ <;>
   · have := h d20aTrace
     revert this
     decide
 
-example : (build [] d20aTrace).valueNames =
+example : (buildPrefix [] d20aTrace).valueNames =
     ["x", "c", "v_Add_0", "const_1.0_f32", "v_Add_0", "const_2.0_f32", "v_Add_0", "v_If_1"] := by decide
+
+/-- the same trace on the current code (also the non-vacuity instance with subgraphs). -/
+example : (build [] d20aTrace).valueNames =
+    ["x", "c", "v_Add_0", "const_1.0_f32", "v_Add_1", "const_2.0_f32", "v_Add_2", "v_If_3"] := by decide
+example : (build [] d20aTrace).nodeNames = ["Add_node_0", "If_node_3", "Add_node_1", "Add_node_2"] := by decide
+example : ∀ it ∈ d20aTrace, simpleItem it = true := by decide
 
 /-- non-vacuity of `names_unique_partial`: a trace with scopes, literals, a multi-output op and a call. -/
 def simpleTrace : List Item :=
   [.input "x", .push "blk", .op "Add" [.ref 0, .lit (.num "1" 1000 "f32")] (.auto 1) none [],
    .op "Split" [.ref 1] (.auto 3) none [], .pop, .call 0 [.ref 2, .ref 3] none, .output 5 (some "out")]
 
-def fAddMul : Fn := ⟨"addmul", "c18", ["a0", "a1"],
+def fAddMul : Fn := ⟨"addmul", "c18", "", ["a0", "a1"],
   [⟨"Add_node_0", "", "Add", [some "a0", some "a1"], ["v_Add_0"]⟩,
    ⟨"Mul_node_1", "", "Mul", [some "a0", some "a1"], ["v_Mul_1"]⟩], ["v_Add_0", "v_Mul_1"]⟩
 
@@ -220,11 +229,12 @@ example : (build [fAddMul] simpleTrace).valueNames =
      "out", "v_addmul_2_1"] := by decide
 
 /-- D20c: `call_inline` of a function returning its own input renames the caller's value in place. -/
-def fIdent : Fn := ⟨"ident", "c18", ["a0"], [], ["a0"]⟩
+def fIdent : Fn := ⟨"ident", "c18", "", ["a0"], [], ["a0"]⟩
 def d20cTrace : List Item :=
   [.input "x", .op "Relu" [.ref 0] (.named ["x"]) none [], .inline 0 [.ref 0] none ""]
 
-theorem names_unique_nosub_refuted_passthrough :
+/-- with `call_inline` allowed, rendered value names are not unique even without subgraphs. -/
+theorem names_unique_noinline_needed :
     ¬ (∀ (fns : List Fn) (tr : List Item), (∀ it ∈ tr, isSub it = false) →
         (build fns tr).valueNames.Nodup) := by
   intro h
@@ -236,13 +246,13 @@ example : (build [fIdent] d20cTrace).valueNames = ["v_x", "v_x"] := by decide
 
 /-- D20f: the rendering is not injective — `f` (4 outputs, node 1) and `f_1` (1 output, node 3) both give
 `v_f_1_3`, in a trace of plain calls. -/
-def fFour : Fn := ⟨"f", "c18", ["a0"], [], ["a0", "a0", "a0", "a0"]⟩
-def fOne : Fn := ⟨"f_1", "c18", ["a0"], [], ["a0"]⟩
+def fFour : Fn := ⟨"f", "c18", "", ["a0"], [], ["a0", "a0", "a0", "a0"]⟩
+def fOne : Fn := ⟨"f_1", "c18", "", ["a0"], [], ["a0"]⟩
 def d20fTrace : List Item :=
   [.input "x", .op "Relu" [.ref 0] (.auto 1) none [], .call 0 [.ref 1] none,
    .op "Add" [.ref 2, .ref 3] (.auto 1) none [], .call 1 [.ref 6] none]
 
-theorem names_unique_nosub_refuted_opname :
+theorem names_unique_refuted_opname :
     ¬ (∀ (fns : List Fn) (tr : List Item), (∀ it ∈ tr, simpleItem it = true) →
         (build fns tr).valueNames.Nodup) := by
   intro h
